@@ -370,7 +370,7 @@ Print Assumptions C18_build_self_names.
     [complete] as a fold of [shadow_step].  [cline root line pcf]: [line] = option prefixes separated by names/aliases
     of subcommands (not called help), every level in the class [lvl18] (decidable: [lvl18_b]); [pcf] is the parser's
     lazily built final level.  [cand_class pcf w cd] (decidable: [cand_class_b]): what is assumed of the candidate -
-    option: typed cluster of known flags, the argument is an option with well-formed names, no subcommand name of
+    option: typed cluster of known flags, the argument carrying the id has well-formed names, no subcommand name of
     the level starts with `-`, the first positional does not want negative numbers; subcommand: UTF-8 spelling. *)
 
 (** the two models read a word identically *)
